@@ -35,7 +35,7 @@ structure Params.Wire (P : Params) : Prop where
 structure FWF (f : Filter) : Prop where
   capPos : 0 < f.capBits
   cap64 : f.capBits % 64 = 0
-  capLt : f.capBits < 2 ^ 32
+  capLt : f.capBits < 2 ^ 38
   nh : f.numHashes < 2 ^ 16
   seed : f.seed < 2 ^ 64
 
